@@ -28,6 +28,7 @@ type Clause struct {
 	Line   int
 	File   string
 	Region *Expr // known-finding region (filled from known_findings.json)
+	Observed *Expr // known behaviour inside the region (proved on the callee side, assumed by callers)
 }
 
 type LoopContract struct {
